@@ -130,7 +130,23 @@ CLASSES['VarInfFixed'] = VarInfFixed
 ADCLASSES = dict(AddDelete=AddDelete, DynamicSIR=DynamicSIR, CompartmentedAddDelete=CompartmentedAddDelete, FullAddDelete=FullAddDelete)
 
 
+class Census(Process):
+    '''a user process that counts the nodes every `interval`: a second periodic observer next to the Monitor, its event function also
+    called observe'''
+    VP_BUILDPOST = True
+    INTERVAL = 'vp.census.interval'
+
+    def build(self, params):
+        super().build(params)
+        self.counts = []
+        self.postRepeatingEvent(0, params[self.INTERVAL], None, self.observe)
+
+    def observe(self, t, e):
+        self.counts.append((t, self.network().order()))
+
+
 def mkproc(p):
+    if p['cls'] == 'Census': return Census()
     if p['cls'] in ADCLASSES: return ADCLASSES[p['cls']]()
     if p['cls'] == 'Isolate': return Isolate()
     if p['cls'] == 'Monitor': return Monitor()
@@ -780,6 +796,7 @@ def gen_monitored(rnd, dyn=None):
     procs = base['procs'] + [dict(cls='Monitor', name=None, params={Monitor.DELTA: delta})]
     if rnd.random() < 0.5: procs.append(dict(cls='NetworkStatistics', name=None, params={}))
     if rnd.random() < 0.3: procs = [procs[1], procs[0]] + procs[2:]
+    if rnd.random() < 0.3: procs.append(dict(cls='Census', name=None, params={Census.INTERVAL: rnd.choice([0.5, 1.0, 0.7, 2.0])}))
     base.update(procs=procs, seq=rnd.choice(['list', 'list', 'nested']), oracles=['clock', 'member', 'loci', 'monitor'])
     return base
 
@@ -803,6 +820,8 @@ def final_monitor(d, ex, res, md, spec):
     """C12: observation times 0, d, 2d, ... up to the end; one series per locus, as long as the list of times; each value is the
     locus' size after every strictly earlier event and before every strictly later one.  NetworkStatistics against a BFS."""
     from epydemic import NetworkStatistics as NS
+    if any(isinstance(p, Monitor) for p in ex.leaves) and Monitor.OBSERVATIONS not in res:
+        return "a Monitor is part of the simulation but the results hold no observation times"
     if Monitor.OBSERVATIONS in res:
         mon = [p for p in ex.leaves if isinstance(p, Monitor)][0]
         delta = None
